@@ -263,6 +263,40 @@ def run(chk, replay=None):
                             chk.known_finding(kf['C06-own-children-units-captured']['what']); stats['known_units_captured'] += 1
                         else:
                             bad = 'the variable of own%d, declared in milliseconds by the importing model, has units %s in the flat model, which are not a millisecond' % (j, un); break
+            if not bad:
+                # the constant of leafB (a grandchild of the instance when the module is two levels deep) is in volt, whatever
+                # its units are called in the flat model
+                ft = open(res['flatf']).read() if os.path.exists(res['flatf']) else ''
+                udefs = {m_.group(1): m_.group(2) for m_ in re.finditer(r'<units name="([^"]+)">(.*?)</units>', ft, re.S)}
+                def reduce_(un, depth=0):
+                    """exponents of the standard units a units name reduces to (standard names taken as independent), None = undefined;
+                    prefixes and multipliers make the result differ from plain volt on purpose"""
+                    if un == 'dimensionless':
+                        return {}
+                    if un not in udefs:
+                        return {un: 1.0} if un in ('volt', 'second', 'metre', 'ampere', 'kilogram', 'mole', 'kelvin', 'candela') else None
+                    if depth > 8:
+                        return None
+                    out = {}
+                    for ch in re.findall(r'<unit ([^>]*)/>', udefs[un]):
+                        at = dict(re.findall(r'(\w+)="([^"]*)"', ch))
+                        sub = reduce_(at.get('units', ''), depth + 1)
+                        if sub is None:
+                            return None
+                        if at.get('prefix') or at.get('multiplier'):
+                            out['scaled'] = out.get('scaled', 0) + 1
+                        for k_, e_ in sub.items():
+                            out[k_] = out.get(k_, 0) + e_ * float(at.get('exponent', '1'))
+                    return {k_: e_ for k_, e_ in out.items() if e_ != 0}
+                for cm in re.finditer(r'<component name="(leafB[^"]*)".*?</component>', ft, re.S):
+                    for un in re.findall(r'<cn[^>]*cellml:units="([^"]+)"', cm.group(0)):
+                        stats['cn_units_of_grandchildren'] = stats.get('cn_units_of_grandchildren', 0) + 1
+                        if reduce_(un) != ({'volt': 1.0, 'second': -1.0} if md['opts'].get('cu_compound') else {'volt': 1.0}):
+                            bad = 'the constant of %s, in volt (per second when spelt with two units) in the library, is in units %s in the flat model, which reduce to %s (%s)' % (cm.group(1), un, reduce_(un), re.sub(r'\s+', ' ', udefs.get(un, 'undefined')).strip()); break
+                    if bad:
+                        break
+            want += 1 if md['opts'].get('cu_clash') else 0
+            want += 2 * md['n'] if md['opts'].get('cu_compound') else 0
             if not bad and nrep != want:
                 bad = '%d variables are reported by the flat model, %d equivalence classes are expected' % (nrep, want)
             if bad:
